@@ -202,14 +202,20 @@ CLAIMED = {
        "and is rejected otherwise, whatever underscores it contains (with boundary instances); each escape the printer emits for "
        "the modelled (ASCII) class is read back as the character it stands for, checked exhaustively over all 128 code points with "
        "digit / letter / empty continuations (kernel `decide`), and every ASCII STRING is read back from its escaped form "
-       "(ascii_string_roundtrip: unescape (escape s) = s by induction, with a per-character lemma for an arbitrary remaining text). The round trip of whole nested values is NOT proved: it is checked "
+       "(ascii_string_roundtrip: unescape (escape s) = s by induction, with a per-character lemma for an arbitrary remaining text); and THE "
+       "ROUND TRIP OF WHOLE VALUES (value_roundtrip / literal_value_roundtrip): for every value built from bool, int (MIN and MAX "
+       "included: the decimal text Lean's / Rust's integer printer emits is read back digit by digit), ASCII strings, () and any nesting of arrays "
+       "and tuples (>= 2 components), the model of Variable::from_str run on the model of the `{:?}` text returns the value as a "
+       "literal builds it (each array's stored element type recomputed from its elements - norm, a projection) - by induction on the "
+       "value, through the reader's ordered alternatives, its white-space skipping, `, ` separators and fuel. NOT proved: floats "
+       "(opaque tokens), non-ASCII characters and the program route (the text run through Code::parse). All of it is also checked "
        "on generated values in both directions between model and implementation - the implementation's debug text vs. the model "
-       "printer, the text read by Variable::from_str vs. the model reader and run as a program - and integer literal forms are "
-       "compared with their mathematical value computed in Python.",
+       "printer, the text read by Variable::from_str vs. the model reader and run as a program (bit-exact, -0.0 included) - and integer "
+       "literal forms are compared with their mathematical value computed in Python.",
   note="Lean kernel; float text is an opaque token (Rust's guarantee that `{:?}` of a finite f64 re-parses to the same value is assumed and "
        "sampled); characters outside ASCII are covered by the oracle only (Rust's grapheme-extend / printable tables are not modelled); "
        "structs are outside the property.",
-  technique="Lean 4 proof (integer literals, escape table) + two-way text correspondence + literal-value oracle", ref="DESIGN.md §6 C20"),
+  technique="Lean 4 proof (integer literals, escapes, print/read round trip of all float-free ASCII values) + two-way text correspondence + literal-value oracle", ref="DESIGN.md §6 C20"),
  "C18": dict(
   text="Lean 4 theorems over the export table and the TypeOf table, both regenerated from src/stdlib.rs, src/stdlib/*.rs and "
        "src/variable/type_of.rs on every run: for every exported function whose result type is derived from its Rust return type, every Rust "
